@@ -99,6 +99,14 @@ impl Block for ZeroCrossing {
         } else {
             o.len()
         };
+        if max_out == 0 {
+            // The clock output is full.
+            drop(out_clock);
+            return Ok(BlockRet::WaitForStream(
+                self.out_clock.as_ref().expect("only the clock can be full here"),
+                1,
+            ));
+        }
         let mut full = false;
         for sample in input.iter() {
             n += 1;
